@@ -9,17 +9,22 @@ Definition zsum (l : list Z) : Z := fold_left Z.add l 0.
 (* states are flat row-major n*m lists *)
 Definition mat_entry (m : nat) (S : list Z) (j k : nat) : Z := nth (j * m + k) S 0.
 
-(* apply_batch_torch on one state: ans[i][k] = sum_j mx[i][j]*S[j][k] (int64), then % modulo *)
+(* one entry of the product: sum_j a_j * b_j in int64; with a modulus every product is reduced
+   before summing (so the sum cannot overflow) and the sum is reduced again *)
+Definition dot_mod (modulo : Z) (terms : list (Z * Z)) : Z :=
+  if 0 <? modulo
+  then wrap (zsum (map (fun '(a, b) => wrap (a * b) mod modulo) terms)) mod modulo
+  else wrap (zsum (map (fun '(a, b) => a * b) terms)).
+
+(* apply_batch_torch / apply on one state: ans[i][k] = sum_j mx[i][j]*S[j][k] *)
 Definition mat_apply (modulo : Z) (n m : nat) (M : list (list Z)) (S : list Z) : list Z :=
   flat_map (fun i =>
-    map (fun k =>
-      let v := wrap (zsum (map (fun j => nth j (nth i M []) 0 * mat_entry m S j k) (seq 0 n))) in
-      if 0 <? modulo then v mod modulo else v) (seq 0 m)) (seq 0 n).
+    map (fun k => dot_mod modulo (map (fun j => (nth j (nth i M []) 0, mat_entry m S j k)) (seq 0 n)))
+        (seq 0 m)) (seq 0 n).
 
 Definition mat_mul (modulo : Z) (n : nat) (A B : list (list Z)) : list (list Z) :=
   map (fun i => map (fun k =>
-      let v := wrap (zsum (map (fun j => nth j (nth i A []) 0 * nth k (nth j B []) 0) (seq 0 n))) in
-      if 0 <? modulo then v mod modulo else v) (seq 0 n)) (seq 0 n).
+      dot_mod modulo (map (fun j => (nth j (nth i A []) 0, nth k (nth j B []) 0)) (seq 0 n))) (seq 0 n)) (seq 0 n).
 
 Definition eye (n : nat) : list (list Z) :=
   map (fun i => map (fun j => if (i =? j)%nat then 1 else 0) (seq 0 n)) (seq 0 n).
